@@ -88,7 +88,7 @@ theorem ctx_of_wf {L : Ledger} {b : Block} (hw : WF L) (hf : FreshIds L b) : Ctx
     exact (Prod.mk.inj this).1
 
 theorem inv_newMid {T} (L : Ledger) : Inv T (newMid L) := by
-  refine ⟨⟨?_, ?_, ?_⟩, ?_, ?_, ?_, ?_⟩
+  refine ⟨⟨?_, ?_, ?_⟩, ?_, ?_, ?_, ?_, List.nodup_nil, fun id h => by simp [newMid] at h⟩
   · intro k i id h; cases k <;> simp [Mid.idsOf, Mid.scIds, Mid.sfIds, Mid.fc1Ids, Mid.fc2Ids, newMid] at h
   · intro id i h; simp [Mid.lookup, newMid] at h
   · intro k id h; cases k <;> simp [Mid.idsOf, Mid.scIds, Mid.sfIds, Mid.fc1Ids, Mid.fc2Ids, newMid] at h
@@ -144,12 +144,13 @@ theorem loop_v1 {T} (pid : Id) (mw : Nat) (l : List Txn1) : ∀ (ms ms' : Mid) (
     Inv T ms' ∧ Fresh T ms' R ∧ ms'.base = ms.base ∧
     Phi ms' + (l.map (·.fees.sum)).sum = Phi ms + claimsV1 ms l ∧ sfTot ms' = sfTot ms ∧
     l.foldlM applyTransaction ms = .ok ms' ∧ ms.pool ≤ ms'.pool ∧
-    (CsOk ms → CsOk ms' ∧ Psi ms' + 10000 * claimsV1 ms l ≤ Psi ms + (ms'.pool - ms.pool) * sfTot ms) := by
+    (CsOk ms → CsOk ms' ∧ Psi ms' + 10000 * claimsV1 ms l ≤ Psi ms + (ms'.pool - ms.pool) * sfTot ms) ∧
+    ms'.pool = ms.pool + (l.map (Txn1.taxes ms.base)).sum := by
   induction l with
   | nil =>
     intro ms ms' R _ hI _ hF _ _ _ h
     simp only [List.foldlM_nil] at h; cases h
-    exact ⟨hI, hF, rfl, by simp [claimsV1], rfl, rfl, Nat.le_refl _, fun h => ⟨h, by simp [claimsV1]⟩⟩
+    exact ⟨hI, hF, rfl, by simp [claimsV1], rfl, rfl, Nat.le_refl _, fun h => ⟨h, by simp [claimsV1]⟩, by simp⟩
   | cons t l ih =>
     intro ms ms' R hc hI hsupp hF hchk hnw hsfb h
     rw [List.foldlM_cons, bind_eq_ok] at h
@@ -166,12 +167,12 @@ theorem loop_v1 {T} (pid : Id) (mw : Nat) (l : List Txn1) : ∀ (ms ms' : Mid) (
       intro sp hsp e he
       have := List.all_eq_true.mp hchk.1 sp hsp
       rw [he] at this; simpa using this
-    obtain ⟨hI1, hF1, hb1, hP1, hS1, hpl1, hsv1⟩ := v1txn_conserves hc hI (hsupp t List.mem_cons_self) hF hlen
+    obtain ⟨hI1, hF1, hb1, hP1, hS1, hpl1, hsv1, hpf1⟩ := v1txn_conserves hc hI (hsupp t List.mem_cons_self) hF hlen
       (hnw t List.mem_cons_self) hsfb hv ha
-    obtain ⟨hI2, hF2, hb2, hP2, hS2, ha2, hpl2, hsv2⟩ := ih ms1 ms' R (hb1 ▸ hc) hI1
+    obtain ⟨hI2, hF2, hb2, hP2, hS2, ha2, hpl2, hsv2, hpf2⟩ := ih ms1 ms' R (hb1 ▸ hc) hI1
       (fun t' ht' => hb1 ▸ hsupp t' (List.mem_cons_of_mem _ ht')) hF1 hchk.2
       (fun t' ht' => hnw t' (List.mem_cons_of_mem _ ht')) (hS1 ▸ hsfb) h2
-    refine ⟨hI2, hF2, hb2.trans hb1, ?_, hS2.trans hS1, ?_, Nat.le_trans hpl1 hpl2, ?_⟩
+    refine ⟨hI2, hF2, hb2.trans hb1, ?_, hS2.trans hS1, ?_, Nat.le_trans hpl1 hpl2, ?_, ?_⟩
     · simp only [List.map_cons, List.sum_cons]
       unfold claimsV1; rw [ha]; simp only []
       omega
@@ -185,6 +186,7 @@ theorem loop_v1 {T} (pid : Id) (mw : Nat) (l : List Txn1) : ∀ (ms ms' : Mid) (
       have hsplit : (ms'.pool - ms.pool) * sfTot ms = (ms'.pool - ms1.pool) * sfTot ms + (ms1.pool - ms.pool) * sfTot ms := by
         rw [← Nat.add_mul]; congr 1; unfold Cur at *; omega
       rw [hsplit]; omega
+    · simp only [List.map_cons, List.sum_cons]; rw [hpf2, hpf1, hb1]; exact Nat.add_assoc _ _ _
 
 theorem loop_v2 {T} (mw : Nat) (l : List Txn2) : ∀ (ms ms' : Mid) (R : List (Kind × Id)),
     Ctx T ms.base → ms.base.child ≥ ms.base.P.ephemeralFix → Inv T ms →
@@ -194,12 +196,13 @@ theorem loop_v2 {T} (mw : Nat) (l : List Txn2) : ∀ (ms ms' : Mid) (R : List (K
     Inv T ms' ∧ Fresh T ms' R ∧ ms'.base = ms.base ∧
     Phi ms' + (l.map (·.fee)).sum + (l.map Txn2.forfeits).sum = Phi ms + claimsV2 ms l ∧ sfTot ms' = sfTot ms ∧
     l.foldlM applyV2Transaction ms = .ok ms' ∧ ms.pool ≤ ms'.pool ∧
-    (CsOk ms → CsOk ms' ∧ Psi ms' + 10000 * claimsV2 ms l ≤ Psi ms + (ms'.pool - ms.pool) * sfTot ms) := by
+    (CsOk ms → CsOk ms' ∧ Psi ms' + 10000 * claimsV2 ms l ≤ Psi ms + (ms'.pool - ms.pool) * sfTot ms) ∧
+    ms'.pool = ms.pool + (l.map Txn2.taxes).sum := by
   induction l with
   | nil =>
     intro ms ms' R _ _ hI hF _ _ h
     simp only [List.foldlM_nil] at h; cases h
-    exact ⟨hI, hF, rfl, by simp [claimsV2], rfl, rfl, Nat.le_refl _, fun h => ⟨h, by simp [claimsV2]⟩⟩
+    exact ⟨hI, hF, rfl, by simp [claimsV2], rfl, rfl, Nat.le_refl _, fun h => ⟨h, by simp [claimsV2]⟩, by simp⟩
   | cons t l ih =>
     intro ms ms' R hc hfix hI hF hnw hsfb h
     rw [List.foldlM_cons, bind_eq_ok] at h
@@ -207,10 +210,10 @@ theorem loop_v2 {T} (mw : Nat) (l : List Txn2) : ∀ (ms ms' : Mid) (R : List (K
     unfold stepV2 at h1
     rw [bind_eq_ok] at h1; obtain ⟨u, hv, ha⟩ := h1
     simp only [List.flatMap_cons, List.append_assoc] at hF
-    obtain ⟨hI1, hF1, hb1, hP1, hS1, hpl1, hsv1⟩ := v2txn_conserves hc hfix hI hF (hnw t List.mem_cons_self) hsfb hv ha
-    obtain ⟨hI2, hF2, hb2, hP2, hS2, ha2, hpl2, hsv2⟩ := ih ms1 ms' R (hb1 ▸ hc) (hb1 ▸ hfix) hI1 hF1
+    obtain ⟨hI1, hF1, hb1, hP1, hS1, hpl1, hsv1, hpf1⟩ := v2txn_conserves hc hfix hI hF (hnw t List.mem_cons_self) hsfb hv ha
+    obtain ⟨hI2, hF2, hb2, hP2, hS2, ha2, hpl2, hsv2, hpf2⟩ := ih ms1 ms' R (hb1 ▸ hc) (hb1 ▸ hfix) hI1 hF1
       (fun t' ht' => hnw t' (List.mem_cons_of_mem _ ht')) (hS1 ▸ hsfb) h2
-    refine ⟨hI2, hF2, hb2.trans hb1, ?_, hS2.trans hS1, ?_, Nat.le_trans hpl1 hpl2, ?_⟩
+    refine ⟨hI2, hF2, hb2.trans hb1, ?_, hS2.trans hS1, ?_, Nat.le_trans hpl1 hpl2, ?_, ?_⟩
     · simp only [List.map_cons, List.sum_cons]
       unfold claimsV2; rw [ha]; simp only []
       c1_omega
@@ -224,6 +227,7 @@ theorem loop_v2 {T} (mw : Nat) (l : List Txn2) : ∀ (ms ms' : Mid) (R : List (K
       have hsplit : (ms'.pool - ms.pool) * sfTot ms = (ms'.pool - ms1.pool) * sfTot ms + (ms1.pool - ms.pool) * sfTot ms := by
         rw [← Nat.add_mul]; congr 1; unfold Cur at *; omega
       rw [hsplit]; omega
+    · simp only [List.map_cons, List.sum_cons]; rw [hpf2, hpf1]; exact Nat.add_assoc _ _ _
 
 -- ------------------------------------------------------------------ miner payouts, subsidy, expirations
 
@@ -431,6 +435,9 @@ def Block.claims (L : Ledger) (b : Block) : Nat :=
     | .ok ms1 => claimsV2 ms1 b.v2txns
     | .error _ => 0)
 
+/-- siafund tax collected by the block -/
+def Block.taxSum (L : Ledger) (b : Block) : Nat := (b.txns1.map (Txn1.taxes L)).sum + (b.v2txns.map Txn2.taxes).sum
+
 /-- total value forfeited by missed v2 expirations in the block -/
 def Block.forfeits (b : Block) : Nat := (b.v2txns.map Txn2.forfeits).sum
 
@@ -440,7 +447,8 @@ theorem block_conserves {L : Ledger} {b : Block} {pid : Id} {msv : Mid}
     ∃ ms, midApplyBlock (newMid L) b = .ok ms ∧ Inv (Tb L b) ms ∧ ms.base = L ∧
       Phi ms + b.forfeits = V L + blockReward L + subsidyVal L + b.claims L ∧ sfTot ms = SFtot L ∧
       L.pool ≤ ms.pool ∧
-      (CsOk (newMid L) → CsOk ms ∧ Psi ms + 10000 * b.claims L ≤ Psi (newMid L) + (ms.pool - L.pool) * SFtot L) := by
+      (CsOk (newMid L) → CsOk ms ∧ Psi ms + 10000 * b.claims L ≤ Psi (newMid L) + (ms.pool - L.pool) * SFtot L) ∧
+      ms.pool = L.pool + b.taxSum L := by
   obtain ⟨hvo, hvs, ms1, hl1, hl2⟩ := validateBlock_ok hv
   obtain ⟨hsupp, hexp, hcond⟩ := validateSupplement_ok hvs
   have hpay := validateMinerPayouts_ok (validateOrphan_ok hvo)
@@ -450,11 +458,11 @@ theorem block_conserves {L : Ledger} {b : Block} {pid : Id} {msv : Mid}
   unfold Block.created at hF0
   have hsf0 : sfTot (newMid L) < u64Limit := by rw [sfTot_newMid]; exact hw.sf_bound
   -- v1 transactions
-  obtain ⟨hI1, hF1, hb1, hP1, hS1, ha1, hpl1, hsv1⟩ := loop_v1 pid b.maxWeight b.txns1 (newMid L) ms1 _ hc hI0 hsupp hF0 hcov.1
+  obtain ⟨hI1, hF1, hb1, hP1, hS1, ha1, hpl1, hsv1, hpf1⟩ := loop_v1 pid b.maxWeight b.txns1 (newMid L) ms1 _ hc hI0 hsupp hF0 hcov.1
     hnw.1 hsf0 hl1
   have hb1' : ms1.base = L := hb1
   -- v2 transactions
-  obtain ⟨hI2, hF2, hb2, hP2, hS2, ha2, hpl2, hsv2⟩ := loop_v2 b.maxWeight b.v2txns ms1 msv _ (hb1' ▸ hc) (hb1' ▸ hfix) hI1 hF1
+  obtain ⟨hI2, hF2, hb2, hP2, hS2, ha2, hpl2, hsv2, hpf2⟩ := loop_v2 b.maxWeight b.v2txns ms1 msv _ (hb1' ▸ hc) (hb1' ▸ hfix) hI1 hF1
     hnw.2 (hS1 ▸ hsf0) hl2
   have hb2' : msv.base = L := hb2.trans hb1'
   -- miner payouts
@@ -483,7 +491,7 @@ theorem block_conserves {L : Ledger} {b : Block} {pid : Id} {msv : Mid}
   obtain ⟨hI5, hF5, hb5, hP5, hS5, hp5⟩ := loop_expiring b.expiring _ ms5 [] (hb4' ▸ hc) hI4
     (fun x hx => ⟨hb4' ▸ hexp x hx, hcov.2 x hx⟩) (by simpa using hF4) hl5
   have hpool5 : ms5.pool = msv.pool := by rw [hp5, hp4, hp3]
-  refine ⟨ms5, ?_, hI5, hb5.trans hb4', ?_, ?_, ?_, ?_⟩
+  refine ⟨ms5, ?_, hI5, hb5.trans hb4', ?_, ?_, ?_, ?_, ?_⟩
   · rw [midApplyBlock_eq_c1]
     have hcond' : ¬ ((newMid L).base.child ≥ (newMid L).base.P.v2Require ∧ (b.txns1.length ≠ 0 ∨ b.expiring.length ≠ 0)) := hcond
     rw [if_neg hcond', bind_eq_ok]
@@ -522,5 +530,9 @@ theorem block_conserves {L : Ledger} {b : Block} {pid : Id} {msv : Mid}
     rw [hsplit]
     simp only [Nat.zero_mul, Nat.add_zero]
     omega
+  · unfold Block.taxSum
+    rw [hpool5, hpf2, hpf1]
+    show L.pool + _ + _ = _
+    exact Nat.add_assoc _ _ _
 
 end Sia.Ledger
